@@ -32,6 +32,7 @@ type channelHolder struct {
 }
 
 func (c *channelHolder) HandleActive(ctx ActiveContext) {
+	verifPoint(c, "h.add")
 	c.addChannel(ctx.Channel())
 	ctx.HandleActive()
 }
@@ -42,12 +43,14 @@ func (c *channelHolder) HandleInactive(ctx InactiveContext, ex Exception) {
 }
 
 func (c *channelHolder) CloseAll(err error) {
+	verifPoint(c, "h.closeall")
 	c.mutex.Lock()
 	channels := c.channels
 	c.channels = make(map[int64]Channel, 1024)
 	c.mutex.Unlock()
 
 	for _, ch := range channels {
+		verifPoint(c, "h.close")
 		ch.Close(err)
 	}
 }
